@@ -263,10 +263,10 @@ def jobs(tier):
             J("independent", "indep-T4", "T4", [10, 9, 10]), J("independent", "indep-T8", "T8", [8, 8, 8]), J("independent", "indep-Blookup", "B|lookup|0", [14, 14], flagsets=(1,)), J("independent", "indep-T6", "T6", [12, 12, 11], flagsets=(0, 3)),
             J("interleave", "interleave-T6", "T6", [12, 12, 12], concrete_bytes=[0, 6, 7, 8, 9, 10], apid=6),
             J("interleave", "interleave-T4", "T4", [9, 10], concrete_bytes=[0, 2, 3]),
-            J("independent", "indep-T4-file-r7-skip4", "T4", [9, 10, 9, 10], flagsets=(0, 3), source="file", read=7, skip=4),
-            J("independent", "indep-TI-many", "TI", [10] * 11 + [9, 10] + [8] * 12 + [9], flagsets=(0, 1, 2, 3)),
-            J("independent", "indep-R|T4-gen", "R|T4", [9, 10, 9], flagsets=(0, 3), root_mode="gen"),
-            J("independent", "indep-T6-file-r16-skip10", "T6", [12, 12, 11], flagsets=(3,), source="file", read=16, skip=10), J("headers-only", "headers-only-T4", "T4", [9, 10, 8, 11]),
+            J("independent", "indep-T4-file-r7-skip4", "T4", [9, 10, 9], flagsets=(0, 3), source="file", read=7, skip=4),
+            J("independent", "indep-TI-many", "TI", [10] * 11 + [9, 10] + [8] * 3, flagsets=(0, 1, 2, 3)),
+            J("independent", "indep-R|T4-gen", "R|T4", [9, 10], flagsets=(0, 3), root_mode="gen"),
+            J("independent", "indep-T6-file-r16-skip10", "T6", [12, 12], flagsets=(3,), source="file", read=16, skip=10), J("headers-only", "headers-only-T4", "T4", [9, 10, 8, 11]),
             J("headers-only", "headers-only-T6", "T6", [12, 7])]
 
 
